@@ -1,13 +1,13 @@
 #!/bin/bash
 # Usage: tools/trymut.sh <PROPERTY_ID> <dir with patch.diff + demo_test.go> [tier] [extra check ids...]
 # 1. confirms the seeded change in a scratch worktree: compiles, existing tests pass, demo fails with it and passes without;
-# 2. applies it to /repo, runs ./check <ID> <tier>, undoes it straight afterwards; evidence files are preserved.
+# 2. runs ./check <ID> <tier> against a scratch worktree carrying the change (VERIF_REPO: same as git -C /repo apply; run; git checkout,
+#    but /repo itself is never touched, so other runs are not disturbed); evidence files of /verif are not rewritten.
 set -u
 ID=$1; DIR=$(cd "$2" && pwd); TIER=${3:-quick}; shift; shift; shift || true
 EXTRA="$@"
 export GOFLAGS=-mod=mod GOPROXY=off GOSUMDB=off GOTOOLCHAIN=local
 V=/verif
-if [ -n "$(git -C /repo status --porcelain)" ]; then echo "REPO NOT CLEAN"; exit 9; fi
 WT=/tmp/trymut.$$
 git -C /repo worktree add -q --detach $WT HEAD || exit 9
 cleanup() { git -C /repo worktree remove --force $WT 2>/dev/null; rm -rf $WT; }
@@ -30,18 +30,16 @@ WITHOUT=$( cd $WT/v8 && go test -vet=off -count=1 -run TestDemo $PKG 2>&1 | tail
 echo "demo WITHOUT change: $(echo "$WITHOUT" | tail -1)"
 echo "$WITH" | grep -q "^FAIL\|FAIL" || { echo "DEMO DOES NOT FAIL WITH CHANGE"; exit 6; }
 echo "$WITHOUT" | grep -q "^ok" || { echo "DEMO DOES NOT PASS WITHOUT CHANGE"; exit 6; }
-echo "== run checks against the change"
-mkdir -p /tmp/evsave.$$ && cp $V/evidence/*.json /tmp/evsave.$$/ 2>/dev/null
-git -C /repo apply $DIR/patch.diff
+echo "== run checks against the change (scratch worktree with the patch, VERIF_REPO)"
+( cd $WT && rm -f $DEST && git checkout -- . && git apply $DIR/patch.diff ) || exit 8
 RC=0
 for C in $ID $EXTRA; do
-  OUT=$( cd $V && ./check $C $TIER 2>&1 )
+  OUT=$( cd $V && VERIF_REPO=$WT ./check $C $TIER 2>&1 )
   rc=$?
   echo "--- ./check $C $TIER -> exit $rc"
   echo "$OUT" | grep -E "^VIOLATION|fingerprint:|what:|^INCONCLUSIVE|^KNOWN|verdict=" | cut -c1-400 | head -16
   [ "$C" = "$ID" ] && RC=$rc
 done
-git -C /repo checkout -- .
-cp /tmp/evsave.$$/*.json $V/evidence/ 2>/dev/null; rm -rf /tmp/evsave.$$
-if [ -n "$(git -C /repo status --porcelain)" ]; then echo "WARNING: /repo not clean after undo"; fi
+rm -f $V/.build/*-alt-*.test
+rm -rf $V/.work/*-alt-*
 if [ $RC -eq 1 ]; then echo "RESULT: DETECTED"; else echo "RESULT: MISSED (exit $RC)"; fi
